@@ -29,8 +29,15 @@ var repoDir = func() string {
 	return "/repo"
 }()
 
+// verifDir is /verif; VERIF_DIR overrides it for background runs from a snapshot (vp run).
+var verifDir = func() string {
+	if r := os.Getenv("VERIF_DIR"); r != "" {
+		return r
+	}
+	return "/verif"
+}()
+
 const (
-	verifDir = "/verif"
 	goBin    = "/opt/veriftools/go1.26.8/bin/go"
 )
 
@@ -397,6 +404,9 @@ func check(args []string) {
 	workers := runtime.NumCPU()
 	if workers > 16 {
 		workers = 16
+	}
+	if w, err := strconv.Atoi(os.Getenv("VERIF_WORKERS")); err == nil && w > 0 && w < workers {
+		workers = w
 	}
 	// chunks
 	type chunk struct{ from, to int }
